@@ -15,6 +15,12 @@ chk("C06",
     "Coq proof (structural induction over strings via a 4-state scanner) + regenerated-model tie + vm_compute correspondence",
     "DESIGN.md §4 C06")
 
+chk("C09",
+    "Coq theorems over the item model (Model/Item.v: one file, its source copy, its destination copy, the request; every task is a script of micro-operations, one per database statement / file-system call; a kill = a prefix of the script + roll-back of the open transaction): for every task (verification of either copy, deletion, group search, transfer by every route, transport and transport behaviour, gate), every start state with healthy copies backed, and every k, the state after a kill at k never records a healthy unreleased copy or a newly completed request without good bytes, never changes the source's bytes and never takes the bytes of a healthy wanted destination copy; every state a kill can leave during an iteration working on a pending transfer heals within three fault-free rounds to the uninterrupted outcome (destination healthy, wanted, good bytes; request no longer pending; source untouched); a released copy is gone one round after a kill anywhere in its deletion; a wanted suspect copy has its verdict one round after. Decided by vm_compute over the complete finite enumeration (11 232 item states x environments x behaviours x crash points) lifted by forallb_forall. Tie (T2): the real daemon is killed at every interposed call of one iteration in single-item worlds (state x environment x transport behaviour) and then runs three rounds; every crash state and round is compared with the model in Coq; effect order pinned from the source text. Import crashes and random multi-item histories with one kill are compared with the uninterrupted run after convergence (monitors).",
+    "Coq kernel+VM; kill = exception at an interposed call with sqlite roll-back (no torn system calls, no OS/disk loss); stand-in transports; tasks on one item do not overlap; item model hand-written, tied by correspondence only; imports covered by monitors and the C04 model, not by the item theorems",
+    "Coq proof by complete finite enumeration (vm_compute + forallb_forall) + vm_compute correspondence of crash states and recovery rounds with the real daemon",
+    "DESIGN.md §4 C09")
+
 chk("C20",
     "Coq theorems over the model of io/lfs.py and io/lustrehsm.py: for every path (any bytes, state keywords included) the state read from '<path>:<flags>' and the restore-in-progress answer depend on the text after the prefix only (the unrepaired hsm_restoring is refuted in Coq: F-C20a); _restore_wait for every reported state x restore outcome keeps the _restoring set and the _restore_start dict on the same keys, never raises KeyError, removes the file on every final answer and keeps it while waiting, lifted by induction to every history of calls about any files (a file stays marked only while the last answer about it was 'wait'); hashing / ready / open only when the file system reports restored or unarchived; release_files = exactly the healthy, ready, restored copies of the shortest last_update-ordered prefix reaching the shortfall, nothing when headroom is met or free space unknown; idle refresh sets ready iff resident and records missing files absent. Tie: word tests, prefix stripping, run_lfs classification, shortfall arithmetic and stop test re-translated from /repo on every run (T1, skeletons of the other functions pinned); six correspondence families through the real LFS / LustreHSMNodeIO evaluated by the model in Coq (T2); end-to-end histories against a scripted Lustre-HSM stand-in (evolving residency, faults and time-outs at any lfs call, roots containing the keywords) under monitors incl. quiescence (every waiting task ends once the file system is healthy).",
     "Coq kernel+VM; translator fragment; lfs(1) stand-in prints the documented format; each _restore_wait call atomic w.r.t. other tasks and residency constant within one task (modelled, not verified); sqlite ordering by correspondence",
